@@ -53,10 +53,10 @@ class CSSCharsetRule(cssrule.CSSRule):
                                              parentStyleSheet=parentStyleSheet)
         self._atkeyword = '@charset'
 
+        # (also if the given encoding is rejected and only logged)
+        self._encoding = None
         if encoding:
             self.encoding = encoding
-        else:
-            self._encoding = None
 
         self._readonly = readonly
 
